@@ -2,6 +2,7 @@ package props
 
 import (
 	"fmt"
+	"strings"
 	"time"
 
 	"verifsim/core"
@@ -10,6 +11,7 @@ import (
 
 	"github.com/MixinNetwork/mixin/common"
 	"github.com/MixinNetwork/mixin/crypto"
+	"github.com/MixinNetwork/mixin/storage"
 )
 
 // C26 — node work is credited exactly once per snapshot.
@@ -30,6 +32,9 @@ func c26Gen(rng *core.Rng, tier string) *harness.Plan {
 		return p
 	}
 	p.Params["chains"] = int64(1 + rng.IntN(4))
+	if rng.Chance(0.5) {
+		p.Params["commit_stop"] = 1
+	}
 	n := 20 + rng.IntN(80)
 	if tier == "thorough" {
 		n = 60 + rng.IntN(500)
@@ -141,6 +146,41 @@ func c26Exec(p *harness.Plan) *harness.Outcome {
 				ch.sent = len(ch.full)
 			}
 			works := ch.full[:ch.sent]
+			// some submissions are cut right before the k-th Badger commit they issue (process stop); the
+			// store is reopened and, like the aggregator after a restart, the round is submitted again
+			if p.P("commit_stop", 0) == 1 && op.C%4 == 0 {
+				stopAt, commits, stopped := 1+int(op.C/4)%2, 0, false
+				storage.SimPoint = func(pt string) {
+					if strings.HasPrefix(pt, "commit:") {
+						commits++
+						if commits == stopAt {
+							panic(c15Stop{})
+						}
+					}
+				}
+				g := c.guard("write-panic", func() {
+					defer func() {
+						if r := recover(); r != nil {
+							if _, ok := r.(c15Stop); !ok {
+								panic(r)
+							}
+							stopped = true
+						}
+					}()
+					_ = f.Store.WriteRoundWork(f.NodeIds[node], ch.round, works, true)
+				})
+				storage.SimPoint = nil
+				if g != nil {
+					return g
+				}
+				if stopped {
+					c.out.Faults["crash.before_commit_inside_WriteRoundWork"]++
+					c.logf("stop n%d r%d before commit %d", node, ch.round, stopAt)
+					if err := f.Reopen(false); err != nil {
+						return c.tool(err)
+					}
+				}
+			}
 			if g := c.guard("write-panic", func() {
 				err = f.Store.WriteRoundWork(f.NodeIds[node], ch.round, works, true)
 			}); g != nil {
